@@ -1,49 +1,29 @@
 import SaModel.Lemmas.C03WF
 /-
-`newDT_builtFor`: the builder `build_builder` creates for a field stands for that field (`BuiltFor`), provided every
-Map type in the field has exactly two entry children (`Map2`): `build_builder` ignores further entry children, and the
-array it then produces is not of the declared type (recorded finding, see notes/C03.md).
+`newDT_builtFor`: the builder `build_builder` creates for a field stands for that field (`BuiltFor`).  No hypothesis:
+`build_builder` refuses Map types with other than two entry children and dictionaries with a non-integer key type (repo
+fixes 095456f / 7359431; before them this needed `Map2` — the pinned code ignored further entry children and the array it
+then produced was not of the declared type, see notes/C03.md).
 -/
 namespace SaModel.Lemmas.C03
 open SaModel SaModel.Build SaModel.Spec
-
-mutual
-/-- every Map type has exactly the two entry children `keys`, `values` -/
-def Map2 : DataType → Prop
-  | .map (.mk _ (.struct (.cons kf (.cons vf rest))) _ _) _ => rest = .nil ∧ Map2F kf ∧ Map2F vf
-  | .list f => Map2F f
-  | .largeList f => Map2F f
-  | .fixedSizeList f _ => Map2F f
-  | .struct fs => Map2Fs fs
-  | .dictionary k v => Map2 k ∧ Map2 v
-  | .union fs _ => Map2U fs
-  | _ => True
-def Map2F : Field → Prop
-  | .mk _ dt _ _ => Map2 dt
-def Map2Fs : Fields → Prop
-  | .nil => True
-  | .cons f r => Map2F f ∧ Map2Fs r
-def Map2U : UFields → Prop
-  | .nil => True
-  | .cons _ f r => Map2F f ∧ Map2U r
-end
 
 theorem newValidity_isSome (nl : Bool) : (newValidity nl).isSome = nl := by cases nl <;> rfl
 
 theorem newDT_builtFor_all :
     (∀ (path : String) (dt : DataType) (nl : Bool) (md : Metadata),
-      Map2 dt → ∀ b, newDT path dt nl md = .ok b → BuiltFor dt nl b) ∧
+      ∀ b, newDT path dt nl md = .ok b → BuiltFor dt nl b) ∧
     (∀ (path : String) (ufs : UFields) (k : Nat),
-      Map2U ufs → ∀ bl, newUnionFields path ufs k = .ok bl → BuiltForU ufs bl k) ∧
+      ∀ bl, newUnionFields path ufs k = .ok bl → BuiltForU ufs bl k) ∧
     (∀ (path : String) (f : Field),
-      Map2F f → ∀ b, newB path f = .ok b → BuiltFor f.dataType f.nullable b) ∧
+      ∀ b, newB path f = .ok b → BuiltFor f.dataType f.nullable b) ∧
     (∀ (path : String) (fs : Fields),
-      Map2Fs fs → ∀ bl, newFields path fs = .ok bl → BuiltForL fs bl) := by
+      ∀ bl, newFields path fs = .ok bl → BuiltForL fs bl) := by
   apply newDT.mutual_induct
-    (motive_1 := fun path dt nl md => Map2 dt → ∀ b, newDT path dt nl md = .ok b → BuiltFor dt nl b)
-    (motive_2 := fun path ufs k => Map2U ufs → ∀ bl, newUnionFields path ufs k = .ok bl → BuiltForU ufs bl k)
-    (motive_3 := fun path f => Map2F f → ∀ b, newB path f = .ok b → BuiltFor f.dataType f.nullable b)
-    (motive_4 := fun path fs => Map2Fs fs → ∀ bl, newFields path fs = .ok bl → BuiltForL fs bl)
+    (motive_1 := fun path dt nl md => ∀ b, newDT path dt nl md = .ok b → BuiltFor dt nl b)
+    (motive_2 := fun path ufs k => ∀ bl, newUnionFields path ufs k = .ok bl → BuiltForU ufs bl k)
+    (motive_3 := fun path f => ∀ b, newB path f = .ok b → BuiltFor f.dataType f.nullable b)
+    (motive_4 := fun path fs => ∀ bl, newFields path fs = .ok bl → BuiltForL fs bl)
   all_goals try (
     intros
     rename_i h
@@ -57,7 +37,7 @@ theorem newDT_builtFor_all :
     simp [newDT, newFields, newUnionFields, ctx, fail, *] at h
     done)
   case case17 =>
-    intro path u tz nl md _ b h
+    intro path u tz nl md b h
     simp only [newDT, bind, Except.bind] at h
     cases hu : isUtcTz tz with
     | error e => rw [hu] at h; cases h
@@ -65,31 +45,31 @@ theorem newDT_builtFor_all :
       rw [hu] at h; cases h
       simp [BuiltFor, leafDT, newValidity_isSome]
   case case32 =>
-    intro path n nl md hn _ b h
+    intro path n nl md hn b h
     simp only [newDT, hn, if_false] at h
     cases h
     have : ((n.toNat : Nat) : Int) = n := Int.toNat_of_nonneg (by omega)
     simp [BuiltFor, newValidity_isSome, this]
   case case33 =>
-    intro path child nl md ih hm b h
+    intro path child nl md ih b h
     simp only [newDT, bind, Except.bind] at h
     cases hc : newB (path ++ "." ++ childName child.name) child with
     | error e => rw [hc] at h; cases h
     | ok el =>
       rw [hc] at h; cases h
       simp only [BuiltFor]
-      exact ⟨child, by simp, rfl, newValidity_isSome nl, ih (by simpa [Map2, Map2F] using hm) el hc⟩
+      exact ⟨child, by simp, rfl, newValidity_isSome nl, ih el hc⟩
   case case34 =>
-    intro path child nl md ih hm b h
+    intro path child nl md ih b h
     simp only [newDT, bind, Except.bind] at h
     cases hc : newB (path ++ "." ++ childName child.name) child with
     | error e => rw [hc] at h; cases h
     | ok el =>
       rw [hc] at h; cases h
       simp only [BuiltFor]
-      exact ⟨child, by simp, rfl, newValidity_isSome nl, ih (by simpa [Map2, Map2F] using hm) el hc⟩
+      exact ⟨child, by simp, rfl, newValidity_isSome nl, ih el hc⟩
   case case36 =>
-    intro path child n nl md hn ih hm b h
+    intro path child n nl md hn ih b h
     simp only [newDT, hn, if_false, bind, Except.bind] at h
     cases hc : newB (path ++ "." ++ childName child.name) child with
     | error e => rw [hc] at h; cases h
@@ -97,11 +77,9 @@ theorem newDT_builtFor_all :
       rw [hc] at h; cases h
       have : ((n.toNat : Nat) : Int) = n := Int.toNat_of_nonneg (by omega)
       simp only [BuiltFor]
-      exact ⟨child, by rw [this], rfl, newValidity_isSome nl, ih (by simpa [Map2, Map2F] using hm) el hc⟩
-  case case37 =>
-    intro path ename kf vf rest enl emd sorted nl md ihk ihv hm b h
-    simp only [Map2] at hm
-    obtain ⟨rfl, hmk, hmv⟩ := hm
+      exact ⟨child, by rw [this], rfl, newValidity_isSome nl, ih el hc⟩
+  case case38 =>
+    intro path ename kf vf enl emd sorted nl md ihk ihv b h
     simp only [newDT, bind, Except.bind] at h
     cases hk : newB (path ++ "." ++ childName ename ++ "." ++ childName kf.name) kf with
     | error e => rw [hk] at h; cases h
@@ -112,9 +90,9 @@ theorem newDT_builtFor_all :
       | ok vb =>
         rw [hv] at h; cases h
         simp only [BuiltFor]
-        exact ⟨ename, kf, vf, sorted, enl, emd, rfl, rfl, newValidity_isSome nl, ihk hmk kb hk, ihv hmv vb hv⟩
-  case case41 =>
-    intro path fs nl md ih hm b h
+        exact ⟨ename, kf, vf, sorted, enl, emd, rfl, rfl, newValidity_isSome nl, ihk kb hk, ihv vb hv⟩
+  case case42 =>
+    intro path fs nl md ih b h
     simp only [newDT, bind, Except.bind] at h
     cases hf : newFields path fs with
     | error e => rw [hf] at h; cases h
@@ -125,11 +103,10 @@ theorem newDT_builtFor_all :
       · cases h
       · cases h
         simp only [BuiltFor]
-        exact ⟨fs, rfl, newValidity_isSome nl, ih (by simpa [Map2] using hm) bl hf⟩
-  case case42 =>
-    intro path k v nl md ihk ihv hm b h
-    simp only [Map2] at hm
-    simp only [newDT, bind, Except.bind] at h
+        exact ⟨fs, rfl, newValidity_isSome nl, ih bl hf⟩
+  case case43 =>
+    intro path k v nl md hint ihk ihv b h
+    simp only [newDT, hint, if_true, bind, Except.bind] at h
     cases hk : newDT (path ++ ".key") k nl [] with
     | error e => rw [hk] at h; cases h
     | ok kb =>
@@ -139,27 +116,26 @@ theorem newDT_builtFor_all :
       | ok vb =>
         rw [hv] at h; cases h
         simp only [BuiltFor]
-        exact ⟨k, v, rfl, ihk hm.1 kb hk, ihv hm.2 vb hv⟩
-  case case43 =>
-    intro path fs mode nl md ih hm b h
+        exact ⟨k, v, rfl, hint, ihk kb hk, ihv vb hv⟩
+  case case45 =>
+    intro path fs mode nl md ih b h
     simp only [newDT, bind, Except.bind] at h
     cases hf : newUnionFields path fs 0 with
     | error e => rw [hf] at h; cases h
     | ok bl =>
       rw [hf] at h; cases h
       simp only [BuiltFor]
-      exact ⟨fs, mode, rfl, ih (by simpa [Map2] using hm) bl hf⟩
-  case case46 =>
-    intro path name dt nl md ih hm b h
+      exact ⟨fs, mode, rfl, ih bl hf⟩
+  case case48 =>
+    intro path name dt nl md ih b h
     simp only [newB] at h
-    exact ih (by simpa [Map2F] using hm) b h
-  case case47 =>
-    intro path _ bl h
+    exact ih b h
+  case case49 =>
+    intro path bl h
     simp only [newFields] at h; cases h
     simp [BuiltForL]
-  case case48 =>
-    intro path f rest ihf ihr hm bl h
-    simp only [Map2Fs] at hm
+  case case50 =>
+    intro path f rest ihf ihr bl h
     simp only [newFields, bind, Except.bind] at h
     cases hb : newB (path ++ "." ++ f.name) f with
     | error e => rw [hb] at h; cases h
@@ -170,14 +146,13 @@ theorem newDT_builtFor_all :
       | ok r =>
         rw [hr] at h; cases h
         simp only [BuiltForL]
-        exact ⟨trivial, ihf hm.1 b hb, ihr hm.2 r hr⟩
-  case case49 =>
-    intro path k _ bl h
+        exact ⟨trivial, ihf b hb, ihr r hr⟩
+  case case51 =>
+    intro path k bl h
     simp only [newUnionFields] at h; cases h
     simp [BuiltForU]
-  case case51 =>
-    intro path tid f rest idx hne ihf ihr hm bl h
-    simp only [Map2U] at hm
+  case case53 =>
+    intro path tid f rest idx hne ihf ihr bl h
     simp only [newUnionFields, hne, bind, Except.bind] at h
     cases hb : newB (path ++ "." ++ childName f.name) f with
     | error e => rw [hb] at h; cases h
@@ -188,29 +163,24 @@ theorem newDT_builtFor_all :
       | ok r =>
         rw [hr] at h; cases h
         simp only [BuiltForU]
-        exact ⟨by simpa using hne, trivial, ihf hm.1 b hb, ihr hm.2 r hr⟩
+        exact ⟨by simpa using hne, trivial, ihf b hb, ihr r hr⟩
 
-/-- **the builder `build_builder` creates for a field stands for that field** -/
-theorem newDT_builtFor (path : String) (dt : DataType) (nl : Bool) (md : Metadata) (b : B) (hm : Map2 dt)
+/-- **the builder `build_builder` creates for a field stands for that field** (no hypothesis: `build_builder` refuses
+Map fields with other than two entry children and non-integer dictionary key types) -/
+theorem newDT_builtFor (path : String) (dt : DataType) (nl : Bool) (md : Metadata) (b : B)
     (h : newDT path dt nl md = .ok b) : BuiltFor dt nl b :=
-  newDT_builtFor_all.1 path dt nl md hm b h
+  newDT_builtFor_all.1 path dt nl md b h
 
-theorem newB_builtFor (path : String) (f : Field) (b : B) (hm : Map2F f) (h : newB path f = .ok b) :
+theorem newB_builtFor (path : String) (f : Field) (b : B) (h : newB path f = .ok b) :
     BuiltFor f.dataType f.nullable b :=
-  newDT_builtFor_all.2.2.1 path f hm b h
+  newDT_builtFor_all.2.2.1 path f b h
 
-theorem newFields_builtFor (path : String) (fs : Fields) (bl : BL) (hm : Map2Fs fs) (h : newFields path fs = .ok bl) :
+theorem newFields_builtFor (path : String) (fs : Fields) (bl : BL) (h : newFields path fs = .ok bl) :
     BuiltForL fs bl :=
-  newDT_builtFor_all.2.2.2 path fs hm bl h
-
-theorem Map2Fs_ofList : ∀ (fields : List Field), (∀ f ∈ fields, Map2F f) → Map2Fs (Fields.ofList fields)
-  | [], _ => trivial
-  | f :: r, h => by
-    simp only [Fields.ofList, Map2Fs]
-    exact ⟨h f (by simp), Map2Fs_ofList r (fun g hg => h g (by simp [hg]))⟩
+  newDT_builtFor_all.2.2.2 path fs bl h
 
 /-- the root builder (`OuterSequenceBuilder::new`) stands for the non-nullable struct of the fields -/
-theorem newRoot_builtFor (fields : List Field) (root : B) (hm : ∀ f ∈ fields, Map2F f) (h : newRoot fields = .ok root) :
+theorem newRoot_builtFor (fields : List Field) (root : B) (h : newRoot fields = .ok root) :
     BuiltFor (.struct (Fields.ofList fields)) false root := by
   simp only [newRoot, bind, Except.bind] at h
   cases hf : newFields "$" (Fields.ofList fields) with
@@ -222,7 +192,7 @@ theorem newRoot_builtFor (fields : List Field) (root : B) (hm : ∀ f ∈ fields
     · cases h
     · cases h
       simp only [BuiltFor]
-      exact ⟨_, rfl, rfl, newFields_builtFor "$" _ bl (Map2Fs_ofList fields hm) hf⟩
+      exact ⟨_, rfl, rfl, newFields_builtFor "$" _ bl hf⟩
 
 /-! ### reading the per-column facts off `wfFields` -/
 
